@@ -213,6 +213,7 @@ type concrete struct {
 	qname   string
 	qtype   uint16
 	ptrV4   [4]byte
+	a       dA // the A-lookup script actually used (see concretise)
 	aRecs   [][4]byte
 	edeCode uint16
 	preEDE  bool
@@ -279,9 +280,15 @@ func (r *decRun) concretise(c dCase) *concrete {
 			x.qname = arpaName([16]byte{0x20, 0x01, 0xde, 0xad, 0xbe, 0xef, 0, 0, 0, 0, 0, 0, 1, 2, 3, byte(rng.Intn(256))})
 		}
 	}
-	// A records
+	// A records.  Where the model predicts that no secondary lookup happens the
+	// queryer is still armed with a perfectly usable answer, so that a lookup the
+	// code should not have made ends in an observable synthesis.
+	x.a = c.A
+	if x.a.Kind == "na" {
+		x.a = dA{Kind: "ans", Recs: []dARec{{"pub", 300}}, Chain: "none"}
+	}
 	usedP, usedE := rng.Perm(len(pubPool)), rng.Perm(len(exclPool))
-	for i, rec := range c.A.Recs {
+	for i, rec := range x.a.Recs {
 		if rec.C == "excl" {
 			x.aRecs = append(x.aRecs, exclPool[usedE[i%len(usedE)]])
 		} else {
@@ -291,6 +298,9 @@ func (r *decRun) concretise(c dCase) *concrete {
 	switch c.Down.Ede {
 	case "dnssec":
 		x.edeCode = dnssecEDE[c.Sub%len(dnssecEDE)]
+		if c.Down.Rcode != "SERVFAIL" {
+			x.edeCode = dnssecEDE[rng.Intn(len(dnssecEDE))]
+		}
 	case "cached":
 		x.edeCode = dns.ExtendedErrorCodeCachedError
 	case "other":
@@ -414,7 +424,7 @@ func lookupErr(kind string, rng *rand.Rand, q dns.Question) error {
 
 // query is the scripted internal sub-pipeline.
 func (x *concrete) query(_ context.Context, req *dns.Msg) (*dns.Msg, error) {
-	a := x.c.A
+	a := x.a
 	q := req.Question[0]
 	if err := lookupErr(a.Kind, x.rng, q); err != nil {
 		return nil, err
@@ -818,8 +828,8 @@ func TestDecideReplay(t *testing.T) {
 		workers = 4
 	}
 	one := func(c dCase) {
-		if c.Down.Ede == "dnssec" && c.Sub == 0 && len(in.Cases) == 0 {
-			// every DNSSEC-failure EDE code of RFC 8914
+		if c.Down.Ede == "dnssec" && c.Down.Rcode == "SERVFAIL" && c.Sub == 0 && len(in.Cases) == 0 {
+			// a DNSSEC validation failure: every DNSSEC EDE code of RFC 8914
 			for i := range dnssecEDE {
 				c.Sub = i
 				run.runCase(c)
